@@ -267,7 +267,7 @@ def build_cases(chk, card_texts):
         add({"op": "lex", "cls": "particle", "text": "mode " + w}, "look-alike-words")
         add({"op": "lex", "cls": "particle", "text": "sdef par=" + w}, "look-alike-words")
     texts = [t for _, t in card_texts]
-    n_mut = chk.pick(9000, 90000)
+    n_mut = chk.pick(12000, 120000)
     for i in range(n_mut):
         r = rng.random()
         if r < 0.45 and texts:
